@@ -47,7 +47,7 @@ def run_case(rng, idx, tier):
     kA = O.KINDS[idx % 10]; kB = O.KINDS[(idx // 10) % 10]
     sA, sB, cls, truth = pairs.make_pair(rng, kA, kB)
     oA, oB, L = pairs.scene(sA, sB)
-    A, B = pairs.build_pair(sA, sB)
+    A, B = pairs.build_pair(sA, sB, rng, 0.2)     # 20% of the colliders reach their pose through update_pose()
     tol = TOL * L
     viol = []; inconcl = []; worst = {}
     ev = {"queries": 0, "truth_exact": 0, "truth_interval": 0, "support_calls": 0, "clipped": 0, "overlap_certified": 0}
